@@ -4,8 +4,8 @@ import (
 	"fmt"
 	"go/token"
 	"go/types"
-	"strconv"
 	"sort"
+	"strconv"
 	"strings"
 
 	"golang.org/x/tools/go/ssa"
